@@ -4,6 +4,10 @@ package blockchain
 
 import (
 	"io"
+	"os"
+
+	"github.com/elastos/Elastos.ELA/common/log"
+	"github.com/elastos/Elastos.ELA/zzverif/nd"
 
 	"github.com/elastos/Elastos.ELA/common"
 	common2 "github.com/elastos/Elastos.ELA/core/types/common"
@@ -38,3 +42,11 @@ func (t *zzC11tx) Fee() common.Fixed64            { return 0 }
 func (t *zzC11tx) Serialize(w io.Writer) error    { return nil }
 func (m *zzC11Arbiters) GetArbitersRoundReward() map[common.Uint168]common.Fixed64 { return m.roundReward }
 func (m *zzC11Arbiters) GetFinalRoundChange() common.Fixed64                       { return m.finalChange }
+
+// natively the common logger must exist (the engine treats logging as a no-op)
+func zzInitLog() {
+	if !nd.Symbolic() {
+		d, _ := os.MkdirTemp("", "zzverif-log-")
+		log.NewDefault(d, 255, 0, 0)
+	}
+}
